@@ -750,4 +750,115 @@ theorem flow_stages (f : Nat → List Nat → List Nat) (input : List Nat) (c : 
         cases hs : c.sout <;> simp [ho0, this]
 
 
+
+
+/-- has end `e` been released by dropping the first k `Popen`s? -/
+def closedBy (c : Cfg) (taken : List End) (k : Nat) (e : End) : Bool :=
+  (List.range k).any (fun i => (popenEnds c i).contains e && !taken.contains e)
+
+theorem closedBy_succ (c : Cfg) (taken : List End) (k : Nat) (e : End) :
+    closedBy c taken (k + 1) e = (closedBy c taken k e || ((popenEnds c k).contains e && !taken.contains e)) := by
+  simp [closedBy, List.range_succ, List.any_append]
+
+theorem closedBy_mono (c : Cfg) (taken : List End) (j k : Nat) (e : End) (hjk : j ≤ k) (h : closedBy c taken j e = true) :
+    closedBy c taken k e = true := by
+  induction k with
+  | zero => have : j = 0 := by omega
+            subst this; exact h
+  | succ k ih =>
+    by_cases hj : j = k + 1
+    · subst hj; exact h
+    · rw [closedBy_succ, ih (by omega)]; rfl
+
+theorem dropVec_succ (c : Cfg) (taken : List End) (w : Nat → Bool) (k : Nat) :
+    dropVec c taken w (k + 1) = dropVec c taken w k ++ dropPopen c taken w k := by
+  simp [dropVec, List.range_succ, List.flatMap_append]
+
+theorem dropPopen_held (c : Cfg) (taken : List End) (w : Nat → Bool) (j : Nat) (H : Held) :
+    heldAfter H (dropPopen c taken w j) = fun e => if ((popenEnds c j).contains e && !taken.contains e) = true then none else H e := by
+  unfold dropPopen
+  rw [heldAfter_append, heldAfter_closes, heldAfter_optWait]
+  funext e
+  simp [List.mem_filter]
+
+/-- what the parent holds after the first k `Popen`s were dropped -/
+theorem dropVec_held (c : Cfg) (taken : List End) (w : Nat → Bool) (H : Held) (k : Nat) :
+    heldAfter H (dropVec c taken w k) = fun e => if closedBy c taken k e = true then none else H e := by
+  induction k with
+  | zero => funext e; simp [dropVec, closedBy]
+  | succ k ih =>
+    rw [dropVec_succ, heldAfter_append, ih, dropPopen_held]
+    funext e
+    rw [closedBy_succ]
+    cases closedBy c taken k e <;> simp
+
+/-- every wait of the drop happens after the `Popen`s up to and including that one released their ends -/
+theorem dropVec_waits (P : Held → Prop) (c : Cfg) (taken : List End) (w : Nat → Bool) (H : Held) (k : Nat)
+    (hP : ∀ j, j < k → (!c.det j && !w j) = true → P (fun e => if closedBy c taken (j + 1) e = true then none else H e)) :
+    WaitsUnder P H (dropVec c taken w k) := by
+  induction k with
+  | zero => simp [dropVec, WaitsUnder]
+  | succ k ih =>
+    rw [dropVec_succ, waitsUnder_append]
+    refine ⟨ih (fun j hj => hP j (by omega)), ?_⟩
+    rw [dropVec_held]
+    unfold dropPopen
+    rw [waitsUnder_append]
+    refine ⟨waitsUnder_closes _ _ _, ?_⟩
+    rw [heldAfter_closes]
+    have heq : (fun e => if e ∈ List.filter (fun e => !taken.contains e) (popenEnds c k) then none
+          else if closedBy c taken k e = true then none else H e) =
+        (fun e => if closedBy c taken (k + 1) e = true then none else H e) := by
+      funext e
+      rw [closedBy_succ]
+      cases closedBy c taken k e <;> simp [List.mem_filter]
+    rw [heq]
+    by_cases hw : (!c.det k && !w k) = true
+    · rw [if_pos hw]
+      simp only [WaitsUnder, and_true]
+      exact hP k (by omega) hw
+    · rw [if_neg hw]; simp [WaitsUnder]
+
+
+
+
+theorem capHeld_false : capHeld false = Held.empty := by funext e; simp [capHeld, Held.empty]
+
+/-- a handle whose drop first releases the ends `pre` and then drops the `Popen`s: if everything the
+    parent still holds is in `pre` or belongs to the first `Popen`, every wait of the drop happens
+    with nothing held -/
+theorem drop_waits_nothing_held (c : Cfg) (t : Term) (h : AllStart c) (hcap : capPipe c t = false) (pre : List End)
+    (htail : tail c t = [.ret true, .user] ++ pre.map Act.close ++ dropVec c pre noneWaited c.n)
+    (hcov : ∀ e, heldStages c Held.empty c.n e ≠ none → e ∈ pre ∨ e ∈ popenEnds c 0) :
+    WaitsUnder (fun h => ∀ e, h e = none) Held.empty (runEff c t) := by
+  rw [runEff_ok c t h, htail]
+  simp only [hcap, Bool.false_eq_true, if_false, List.nil_append, List.append_nil]
+  have h0p : ∀ e : End, 1 ≤ e.pipe → Held.empty e = none := fun _ _ => rfl
+  have h0e : hasErrPipe c = true → ∀ e, Held.empty e = none := fun _ _ => rfl
+  have hst := stages_held c (att2 c t) Held.empty c.n (Nat.le_refl _) h0p h0e
+  rw [waitsUnder_append, hst]
+  refine ⟨waitsUnder_noWait _ _ _ (noWait_flatMap _ _ (noWait_stageOk c _)), ?_⟩
+  rw [waitsUnder_append, waitsUnder_append]
+  refine ⟨⟨by simp [WaitsUnder], waitsUnder_closes _ _ _⟩, ?_⟩
+  rw [heldAfter_append, heldAfter_closes]
+  simp only [heldAfter_cons, heldAfter_nil, stepHeld]
+  apply dropVec_waits
+  intro j hj _ e
+  by_cases hc : closedBy c pre (j + 1) e = true
+  · simp [hc]
+  · simp only [hc, if_false, Bool.false_eq_true]
+    by_cases hp : e ∈ pre
+    · simp [hp]
+    · simp only [hp, if_false]
+      cases hh : heldStages c Held.empty c.n e with
+      | none => rfl
+      | some b =>
+        exfalso
+        rcases hcov e (by simp [hh]) with h1 | h1
+        · exact hp h1
+        · apply hc
+          apply closedBy_mono c pre 1 (j + 1) e (by omega)
+          simp [closedBy, List.range_succ, h1, hp]
+
+
 end Pipe
